@@ -260,7 +260,59 @@ def sql_sample(ctx):
             ctx.record_violation('sql-sample-value', '%s = %r, expected %r' % (text, got, want))
 
 
+RENAMED = """option "name_assets" "Aktiva"
+option "name_liabilities" "Passiva"
+option "name_equity" "Eigenkapital"
+option "name_income" "Ertrag"
+option "name_expenses" "Aufwand"
+2020-01-01 open Aktiva:Bank
+2020-01-01 open Passiva:Karte
+2020-01-01 open Eigenkapital:Start
+2020-01-01 open Ertrag:Lohn
+2020-01-01 open Aufwand:Essen
+2020-01-02 * "start"
+  Aktiva:Bank  100.00 EUR
+  Eigenkapital:Start  -100.00 EUR
+2020-01-03 * "lohn"
+  Aktiva:Bank  50.00 EUR
+  Ertrag:Lohn  -50.00 EUR
+2020-01-04 * "essen"
+  Aufwand:Essen  7.50 EUR
+  Passiva:Karte  -7.50 EUR
+"""
+
+
+def renamed_roots_layer(ctx):
+    """the account functions follow the ledger's own root account names"""
+    from beancount import loader
+    entries, errors, options = loader.load_string(RENAMED)
+    conn = beanquery.connect('beancount:', entries=entries, errors=errors, options=options)
+    sign = {'Aktiva': 1, 'Aufwand': 1, 'Passiva': -1, 'Eigenkapital': -1, 'Ertrag': -1}
+    order = ['Aktiva', 'Passiva', 'Eigenkapital', 'Ertrag', 'Aufwand']
+    rows = conn.execute('SELECT account, number, possign(number, account), account_sortkey(account) FROM #postings').fetchall()
+    ctx.evaluations += 1
+    ctx.count('renamed-roots')
+    for account, number, signed, key in rows:
+        root = account.split(':')[0]
+        if signed != number * sign[root]:
+            ctx.record_violation('possign-renamed-roots', 'possign(%s, %r) = %s in a ledger whose roots are renamed' % (number, account, signed))
+            break
+    keys = sorted({(r[3], r[0]) for r in rows})
+    want = sorted({r[0] for r in rows}, key=lambda a: (order.index(a.split(':')[0]), a))
+    if [a for _, a in keys] != want:
+        ctx.record_violation('sortkey-renamed-roots', 'account_sortkey orders %r, expected %r' % ([a for _, a in keys], want))
+    # a ledger with the default names, through the same path
+    entries, errors, options = loader.load_string(RENAMED.split('2020-01-01 open', 1)[0].replace('option', ';option') +
+                                                  '2020-01-01 open Assets:Bank\n2020-01-01 open Income:Job\n2020-01-02 * "x"\n  Assets:Bank  5 EUR\n  Income:Job  -5 EUR\n')
+    conn = beanquery.connect('beancount:', entries=entries, errors=errors, options=options)
+    rows = conn.execute('SELECT account, number, possign(number, account) FROM #postings').fetchall()
+    for account, number, signed in rows:
+        if signed != number * (1 if account.startswith('Assets') else -1):
+            ctx.record_violation('possign-default-roots', 'possign(%s, %r) = %s' % (number, account, signed))
+
+
 def run(ctx):
+    renamed_roots_layer(ctx)
     cast_layer(ctx)
     sql_sample(ctx)
     account_layer(ctx)
